@@ -34,12 +34,12 @@ type C12Case struct {
 	Cycles int      `json:"cycles"`
 }
 
-var c12Points = []string{"before-register", "after-register", "before-capture", "before-wait", "asleep", "woken", "woken-stolen"}
+var c12Points = []string{"before-register", "after-register", "before-capture", "before-wait", "asleep", "woken", "woken-stolen", "asleep-again-after-a-wake-up-for-nothing"}
 var c12Stims = []string{"UNBLOCK", "UNBLOCK-TIMEOUT", "UNBLOCK-ERROR", "KILL", "CLOSE", "PUSH", "UNBLOCK-unknown-id", "UNBLOCK-idle-client"}
 
 func c12Gen(t *rapid.T) C12Case {
 	c := C12Case{
-		Point:  rapid.IntRange(0, 6).Draw(t, "point"),
+		Point:  rapid.IntRange(0, 7).Draw(t, "point"),
 		Second: rapid.IntRange(0, 2).Draw(t, "second") == 0,
 		Cycles: rapid.IntRange(1, 3).Draw(t, "cycles"),
 	}
@@ -146,11 +146,22 @@ func c12Run(c C12Case, st *kit.Stats) (err error) {
 				return err
 			}
 			available = true
-			if c.Point == 6 {
+			if c.Point >= 6 {
 				if err := s.atomic(admin, ase, []string{"LPOP", "q1"}); err != nil {
 					return err
 				}
 				available = false
+			}
+			if c.Point == 7 {
+				// the target retries, finds nothing, registers again and goes back to sleep
+				for i := 0; i < 10 && !(b0.state == "parked" && b0.point == "asleep") && b0.state != "select" && b0.state != "idle"; i++ {
+					if err := s.resume(b0); err != nil {
+						return err
+					}
+				}
+				if b0.state == "idle" {
+					return fmt.Errorf("the target completed although its element had been taken")
+				}
 			}
 		}
 		// stimuli
@@ -431,11 +442,41 @@ func c12Run(c C12Case, st *kit.Stats) (err error) {
 			c.Second = false
 		}
 	}
+	// whatever happened to the blocked clients: when all of it is over, a fresh client that blocks on the same
+	// key is served by the next push (nothing that has finished is left in the wait queue in front of it)
+	if !kit.KF("KF-C12-CLOSE") || !c12Closes(c) {
+		probe := s.emu.Dial()
+		probe.Write(kit.EncodeCmd("BLPOP", "q1", "0"))
+		time.Sleep(3 * time.Millisecond)
+		if v, err := admin.Do("RPUSH", "q1", "for-the-probe"); err != nil || v.IsErr() {
+			return fmt.Errorf("RPUSH for the probe: %v %v", v, err)
+		}
+		pv, perr := probe.Read(3 * time.Second)
+		if perr != nil {
+			lv, _ := admin.Do("LRANGE", "q1", "0", "-1")
+			return fmt.Errorf("after all blocks had ended, a fresh client blocked in BLPOP q1 0 and one element was pushed: the client was not served within 3 s (%v); the list holds %s", perr, lv)
+		}
+		if pv.K != kit.KArr || len(pv.A) != 2 || pv.A[1].S != "for-the-probe" {
+			return fmt.Errorf("the fresh waiter got %s", pv)
+		}
+		probe.Close()
+	}
 	nt := c.Point != 4 || len(c.Stim) >= 2
 	if nt {
 		st.NonTrivial(fmt.Sprintf("%v|%d|%v|%v|%d", c.Cmd, c.Point, c.Stim, c.Second, c.Cycles), map[string]any{"cmd": c.Cmd.String(), "point": c12Points[c.Point], "stimuli": stimNames(c.Stim), "second_waiter": c.Second, "cycles": c.Cycles})
 	}
 	return nil
+}
+
+// c12Closes: the case lets a blocked client's socket be closed by its peer (open finding KF-C12-CLOSE: such a
+// client stays registered and takes the next element).
+func c12Closes(c C12Case) bool {
+	for _, s := range c.Stim {
+		if s == 4 {
+			return true
+		}
+	}
+	return false
 }
 
 func stimNames(x []int) []string {
